@@ -28,6 +28,7 @@ type Obligation struct {
 	Block  int             // top-level block of the obligation (-1: none)
 	Reach  map[int]bool    // blocks whose facts are relevant (ancestors of Block in the CFG); nil: all
 	Cur    map[string]bool // heap version symbols current at the obligation
+	Cached bool            // the unsat answer was reused from the answer cache (identical script)
 
 	// filled by the solver stage
 	Status string // unsat sat unknown timeout error
